@@ -382,10 +382,17 @@ func runNative(ovFiles map[string]string, spec *Spec, pkg string, replayPath str
 	ovData, _ := json.Marshal(map[string]interface{}{"Replace": repl})
 	ovPath := filepath.Join(work, "overlay.json")
 	os.WriteFile(ovPath, ovData, 0o644)
-	cmd := exec.Command("timeout", strconv.Itoa(timeoutS+30), "go", "test", "-vet=off", "-count=1", "-tags", "verif appengine",
-		"-overlay", ovPath, "-run", "^TestZZReplay$", "-timeout", fmt.Sprintf("%ds", timeoutS), "-v", "./"+pkg)
-	cmd.Dir = repoDir
-	cmd.Env = append(os.Environ(), "GOFLAGS=-mod=mod", "GOPROXY=off", "GOSUMDB=off", "GOTOOLCHAIN=local", "ZZ_REPLAY="+replayPath)
+	bin := filepath.Join(work, "replay.test")
+	env := append(os.Environ(), "GOFLAGS=-mod=mod", "GOPROXY=off", "GOSUMDB=off", "GOTOOLCHAIN=local", "ZZ_REPLAY="+replayPath)
+	build := exec.Command("timeout", "300", "go", "test", "-c", "-o", bin, "-vet=off", "-tags", "verif appengine", "-overlay", ovPath, "./"+pkg)
+	build.Dir = repoDir
+	build.Env = env
+	if out, err := build.CombinedOutput(); err != nil {
+		return "BUILD FAILED: " + string(out), err
+	}
+	cmd := exec.Command("timeout", strconv.Itoa(timeoutS+10), bin, "-test.run", "^TestZZReplay$", "-test.v", "-test.timeout", fmt.Sprintf("%ds", timeoutS))
+	cmd.Dir = work
+	cmd.Env = env
 	out, err := cmd.CombinedOutput()
 	return string(out), err
 }
